@@ -69,13 +69,13 @@ def _state(mode, h):
     }
 
 
-def bulk_pairs(values, cap):
+def bulk_pairs(values, cap, dtype="float64"):
     """What Distogram.bulkload feeds to update(), recomputed here with numpy the way the
     property describes it (unique values with counts; above 5*cap distinct values a
     numpy.histogram with 5*cap bins and the MIDPOINTS of its edges)."""
     import numpy
 
-    arr = numpy.array(values, dtype=numpy.float64)
+    arr = numpy.array(values, dtype=getattr(numpy, dtype))     # numpy.histogram / the midpoints work in the array's dtype
     uv, uc = numpy.unique(arr, return_counts=True)
     above = len(uv) > cap * 5
     if above:
@@ -120,8 +120,10 @@ def run_program(mode, prog):
                 elif k == "bulk":
                     h = env[op[1]]
                     vals = [float.fromhex(x) for x in op[2]]
-                    pairs, above, dmin, dmax = bulk_pairs(vals, h._bin_count) if vals else ([], False, None, None)
-                    h.bulkload(numpy.array(vals, dtype=numpy.float64))
+                    pairs, above, dmin, dmax = bulk_pairs(vals, h._bin_count, op[3] if len(op) > 3 else "float64") if vals else ([], False, None, None)
+                    # optional 4th field: the dtype of the array handed to bulkload (the values are exactly
+                    # representable in it; what goes into the histogram is the same numbers)
+                    h.bulkload(numpy.array(vals, dtype=getattr(numpy, op[3]) if len(op) > 3 else numpy.float64))
                     out.append({"state": _state(mode, h), "pairs": pairs, "above": above, "dmin": dmin, "dmax": dmax})
                 elif k == "load":
                     h = env[op[1]]
